@@ -3854,8 +3854,14 @@ where
       }
       Value::Text(s) => {
         if is_ident_uri_data_type(self.state.cddl, ident) {
-          if let Err(e) = uriparse::URI::try_from(&**s) {
-            self.add_error(format!("expected URI data type, decoding error: {}", e));
+          // URI::try_from unwraps a conversion that fails for some reference
+          // errors (e.g. "2020-01-01T00:00:00Z"); parse as a reference instead
+          match uriparse::URIReference::try_from(&**s) {
+            Ok(r) if r.is_uri() => {}
+            Ok(_) => self.add_error(
+              "expected URI data type, decoding error: not a URI (relative reference)".to_string(),
+            ),
+            Err(e) => self.add_error(format!("expected URI data type, decoding error: {}", e)),
           }
         } else if is_ident_b64url_data_type(self.state.cddl, ident) {
           if let Err(e) = base64_url::decode(s) {
